@@ -423,3 +423,31 @@ verus_unit(
 )
 kani("models::lazy_f32_rejects_bad_entries", ["C19"], fns=[M + "categorical/lazy_contiguous.rs::LazyContiguousCategoricalEntropyModel::from_floating_point_probabilities_fast"],
      text="any NaN or negative entry => Err, for every normalisation")
+
+# ---------------- Verus unit: range encoder step (queue.rs)
+_REN_IMPL = "Encode<PRECISION>\n    for RangeEncoder<Word, State, Backend>"
+verus_unit(
+    name="range_enc", template="range_enc_unit.rs.tmpl",
+    widths=["u8_u16", "u8_u32", "u8_u64", "u16_u32", "u16_u64", "u32_u64"],
+    slots={
+        "ENCODE": dict(file="src/stream/queue.rs", anchor=_REN_IMPL, fn="encode_symbol", extra=[
+            (r"model\s*\.left_cumulative_and_probability\(symbol\)\s*\.ok_or_else\(\|\| DefaultEncoderFrontendError::ImpossibleSymbol\.into_coder_error\(\)\)\?",
+             "model.left_cumulative_and_probability(symbol).ok_or_impossible()?", 1),
+            (r"\.into_nonzero\(\)\s*\.ok_or_else\(\|\| DefaultEncoderFrontendError::ImpossibleSymbol\.into_coder_error\(\)\)\?", ".nz().ok_or_impossible()?", 1),
+            (r"self\.bulk\.write\((\w+)\)\?;", r"self.bulk.write(\1).be()?;", 3),
+            (r"\.as_\(\);", ".s2w();", 1),
+            (r"\.expect\(\"[^\"]*\"\)", ".unwrap()", 2),
+            # R14: `if let Inverted(n, _) = &mut self.situation { *n = X; }` (in-place update through a &mut pattern,
+            # unsupported by Verus) -> the same update written as a whole-field assignment
+            (r"if let EncoderSituation::Inverted\(num_inverted, _\) = &mut self\.situation \{\s*(?://[^\n]*\n\s*)*\*num_inverted = ([^;]*);",
+             r"if let EncoderSituation::Inverted(num_inverted, w__) = self.situation {\n                self.situation = EncoderSituation::Inverted(\1, w__);", 1),
+            # ghost-only: loop invariant at the recorded loop header
+            (r"for _ in 1\.\.num_inverted\.get\(\) \{",
+             "for _i in 1..num_inverted\n    invariant 1 <= _i <= num_inverted || num_inverted == 0, slf.bulk@ == b0.push(first_word) + rep(consecutive_words, (_i - 1) as nat), slf.state.lower == lower0, symbol == model.sym\n {", 1),
+        ]),
+    },
+    obligations={
+        "encode_symbol": dict(own=["C06", "C09", "C12", "C20"], dep=["C02", "C07", "C11"], kani_twin="range::u8_u16_p8::enc_step_refines",
+                              text="ensures: impossible symbol => Err(Frontend), encoder untouched; Ok => (lower,range,situation,emitted words) == ll_enc(..) for any number of held-back words; <= 1 word more; range >= 2^(sb-wb) [all P]"),
+    },
+)
